@@ -620,7 +620,7 @@ func init() {
 	props["C07"] = propC07
 	propMeta["C07"] = PropMeta{
 		Technique:   "static analysis: printer/parser agreement per field class (dispatch-table recovery on SSA with per-constant path enumeration), exact table checks",
-		Explanation: "Round-trip ingredients decided structurally: the reverse tables used by the decoder are well-defined functions of the forward tables (injective forward tables, symmetric comparisons, reverse[v]=k construction); for every field code in fieldsTable the text ToCommandLine prints (with resolveIds=false) is of a kind the encoder's value parser for that field accepts over the whole 32-bit range; every rendered -F/-C/arch argument includes the operator looked up from the same filter's flags; where the encoder accepts a raw number (syscalls) a name-table miss in the decoder falls back to the number instead of failing; the string-class field sets of fromAuditRuleData, ToCommandLine and addFilter are the same set; the -w form is rendered only under allSyscalls and never for a rule with a field other than perm, path, dir and key.",
+		Explanation: "Round-trip ingredients decided structurally: the reverse tables used by the decoder are well-defined functions of the forward tables (injective forward tables, symmetric comparisons, reverse[v]=k construction); for every field code in fieldsTable the text ToCommandLine prints (with resolveIds=false) is of a kind the encoder's value parser for that field accepts over the whole 32-bit range; every rendered -F/-C/arch argument includes the operator looked up from the same filter's flags; where the encoder accepts a raw number (syscalls) a name-table miss in the decoder falls back to the number instead of failing; the string-class field sets of fromAuditRuleData, ToCommandLine and addFilter are the same set; the -w form is rendered only under allSyscalls and never for a rule with a field other than perm, path, dir and key. The architecture printed is the one that selects the syscall-name table; the decoder's mask loops cover all syscallBitmaskSize*32 bits; the -w form is reached only under list exit, action always and after an operator test against AUDIT_EQUAL.",
 		NotDecided:  "Byte identity of the re-encoding for every rule; quoting (excluded by the property's own domain); the -w form's dependence on stat.",
 		Assumptions: []string{"strconv parses what strconv prints"},
 	}
@@ -1251,7 +1251,7 @@ func init() {
 	props["C06"] = propC06
 	propMeta["C06"] = PropMeta{
 		Technique:   "static analysis: constant/layout evaluation against the frozen UAPI header per GOARCH, per-field-constant SSA path enumeration, expression evaluation of the padding formula",
-		Explanation: "Exact: every field/operator/comparison/list/action/permission/filetype code and size constant equals the kernel's UAPI #define, and auditRuleHeader has struct audit_rule_data's layout on every analysed GOARCH. Structural: toWireFormat allocates header + len(Buf) + pad with pad = (4 - n mod 4) mod 4 (evaluated for every residue), copies the header at 0 and Buf at the header size; toAuditRuleData stores len(fields) as the field count, copies the three parallel arrays with one index, concatenates the strings in order and stores len(Buf) after the last append; for every field code, every success path of addFilter appends exactly one value, field code and operator (and for string fields the string with value = its length) and no error path appends anything; the syscall mask sets bit n%32 of word n/32 and the all-syscalls pattern is the one the kernel lists back; every success path of addSyscall keeps the all-syscalls flag and the syscall list in step; value parsers convert with matching width and signedness; keys are joined with the key separator; a file watch is exit,always with path|dir, perm, key in that order.",
+		Explanation: "Exact: every field/operator/comparison/list/action/permission/filetype code and size constant equals the kernel's UAPI #define, and auditRuleHeader has struct audit_rule_data's layout on every analysed GOARCH. Structural: toWireFormat allocates header + len(Buf) + pad with pad = (4 - n mod 4) mod 4 (evaluated for every residue), copies the header at 0 and Buf at the header size; toAuditRuleData stores len(fields) as the field count, copies the three parallel arrays with one index, concatenates the strings in order and stores len(Buf) after the last append; for every field code, every success path of addFilter appends exactly one value, field code and operator (and for string fields the string with value = its length) and no error path appends anything; the syscall mask sets bit n%32 of word n/32 and the all-syscalls pattern is the one the kernel lists back; every success path of addSyscall keeps the all-syscalls flag and the syscall list in step; value parsers convert with matching width and signedness; keys are joined with the key separator; a file watch is exit,always with path|dir, perm, key in that order. Nothing reachable from Build writes shared package-level state, and the parallel slices fields/values/fieldFlags/strings only grow by append on the encoding side.",
 		NotDecided:  "That the bytes equal what auditctl would emit for every accepted rule (no independent encoder is run); operator admissibility per field beyond the explicit tests in addFilter.",
 		Assumptions: []string{"frozen UAPI header under /verif/ref"},
 	}
@@ -1918,7 +1918,7 @@ func init() {
 	props["C13"] = propC13
 	propMeta["C13"] = PropMeta{
 		Technique:   "static analysis: bounds/panic obligations (gc prove-pass listing + linear prover over SSA guards with checked lemmas), allocation-size obligations, loop classification",
-		Explanation: "Panic-freedom decided structurally for everything reachable from rule.Build, rule.ToCommandLine and flags.Parse: every index/slice operation the compiler cannot prove in bounds, every allocation whose size is not a constant or the length of an input, every division, unchecked type assertion, nil-map write and explicit panic in scope is an obligation that must be proved from dominating guards and library postconditions or by a named lemma with re-checked premises; ToCommandLine's success return is dominated by FieldCount <= maxFields and by end <= BufLen for every string field; flag names registered on the FlagSet are distinct constants; every loop in scope is a range or a counted loop.",
+		Explanation: "Panic-freedom decided structurally for everything reachable from rule.Build, rule.ToCommandLine and flags.Parse: every index/slice operation the compiler cannot prove in bounds, every allocation whose size is not a constant or the length of an input, every division, unchecked type assertion, nil-map write and explicit panic in scope is an obligation that must be proved from dominating guards and library postconditions or by a named lemma with re-checked premises; ToCommandLine's success return is dominated by FieldCount <= maxFields and by end <= BufLen for every string field; flag names registered on the FlagSet are distinct constants; every loop in scope is a range or a counted loop. The decoder's string-field set contains the kernel's set (13-17, 19-23, 105, 107, 112, 210), so every length word is bounds-checked.",
 		NotDecided:  "Panics from nil receivers/caller-mutated values outside the stated input domain; shellquote.Split (a dependency) is scanned for explicit panics only.",
 		Assumptions: []string{"the gc compiler's prove pass is sound", "library postconditions listed in the checker"},
 	}
